@@ -24,7 +24,7 @@ from . import c07 as C07
 from . import c18 as C18
 
 PROP = "C08"
-RULE = ("(6%: structured 'samebase' inputs -- several conditions over ONE base variable in different worlds with equal / different values, both listing orders, or an outcome sharing its base variable with a condition; one batch case: >= 60 multi-condition inputs run unpatched in fresh interpreters under PYTHONHASHSEED 0,1,2 (thorough: 400 inputs, 8 seeds); 7%: structured 'observational' inputs -- P(y | x) over factual variables, the static part of the two proved fragments; 8%: structured 'bichain' inputs -- 3-4 nodes on a chain of bidirected edges, one outcome, two conditions) random ADMGs with 2-5 nodes x pairs (outcome conjunction, non-empty condition conjunction) with disjoint keys drawn "
+RULE = ("(9%: three structured streams -- 'wide': 2-3 outcomes x 2-3 conditions (mostly >= 5 keys) over up to THREE counterfactual worlds on ladder-like graphs with 4-5 nodes (6 in the thorough tier), half of them 'twins' with >= 2 base variables shared between outcomes and conditions; 'outbase': the same base variable twice among the OUTCOMES; 'unidcond': conditioning events that ID* refuses (bow, Y_x = y, X = x'); 20% of the random pairs are drawn with up to three worlds; 6%: structured 'samebase' inputs -- several conditions over ONE base variable in different worlds with equal / different values, both listing orders, or an outcome sharing its base variable with a condition; one batch case: >= 60 multi-condition inputs run unpatched in fresh interpreters under PYTHONHASHSEED 0,1,2 (thorough: 400 inputs, 8 seeds); 7%: structured 'observational' inputs -- P(y | x) over factual variables, the static part of the two proved fragments; 8%: structured 'bichain' inputs -- 3-4 nodes on a chain of bidirected edges, one outcome, two conditions) random ADMGs with 2-5 nodes x pairs (outcome conjunction, non-empty condition conjunction) with disjoint keys drawn "
         "from <=2 counterfactual worlds plus the factual world (shared/distinct subscripts, x / x' values, "
         "self-interventions); the examples of test_idc_star / Shpitser-Pearl / Tikka and all past witnesses first; a "
         "stream of impossible conditions (violating effectiveness). Every case is run under every order of the worlds and "
@@ -38,8 +38,16 @@ ASSUMPTIONS = [
     "positivity of kernels is assumed, only P(condition) > 0); both are decided on the real run (tags in_fragment_c / in_fragment_x) "
     "AND by the model (driver op idc_star_checked), the two verdicts are part of the correspondence; a failure inside a fragment is a "
     "VIOLATION keyed [IN-FRAGMENT(-X), kind], never a known finding.",
+    "several conditions, one of them exchanged (InFragmentXs, decidable inFragmentXsB): since `fix:` 1834c39 the rule-2 test conditions on "
+    "the OTHER conditions; PROVED (idcstar_exchange_licensed, idcstar_sound_fragment_exchange_multi_partial): whenever line 4 exchanges a "
+    "condition, every outcome is m-separated from it (specification of C04, not the algorithm) in the counterfactual graph without its "
+    "outgoing edges given the other conditions and the self-intervened nodes -- the graphical premise of rule 2; NOT proved: the semantic "
+    "equality for several conditions (rule 2 with a non-empty conditioning set on the noise space), and it is FALSE of the code when a "
+    "remaining condition descends from the exchanged one (open finding exchange:conditions: the remaining conditions keep no subscript; "
+    "pinned by the suite's figure-9a expectation); the harness recomputes the documented test (with the other conditions) independently "
+    "by path enumeration on every exchange it has to explain (kind exchange:not-licensed-by-documented-test, never listed)",
     "outside the two fragments soundness and zero-soundness have NO theorem; IDC* inherits the wrong "
-    "answers of ID* (F10) and adds its own (an exchange made while other conditions remain ignores them; what remains of F11: "
+    "answers of ID* (F10) and adds its own (after an exchange the remaining conditions keep no subscript; what remains of F11: "
     "Expression.conditional also normalises over the variables bound by inner sums of the ID* estimand -- the subscript part of "
     "F11 is repaired by `fix:` a54a0f5): decided by correspondence + exact "
     "evaluation on 8 sampled functional SCMs per case; the known wrong answers are listed in known_findings.jsonl",
@@ -81,7 +89,10 @@ ASSUMPTIONS = [
     "checked domain (idc_star merges the two dicts, the condition's value silently wins)",
     "a wrong value / wrong Zero is classified by the FIRST step of IDC*'s own chain of claims that an independent exact "
     "evaluation shows to be broken on that input: 'reassociation' (get_new_outcomes_and_conditions changes "
-    "P(outcomes | conditions); only for events with a counterfactual world), 'exchange' (the line-4 exchange changes it; only listed "
+    "P(outcomes | conditions); only for events with a counterfactual world), 'exchange' (the line-4 exchange changes it: "
+    "'exchange:conditions' when it would be right had the remaining conditions -- those not already in a world that sets the exchanged "
+    "variable -- received the new subscript too, the subscript's star taken from the exchanged condition's value when no outcome "
+    "received it; 'exchange:separation' otherwise: repaired by `fix:` 1834c39, no longer listed, 0 of 8014 thorough inputs; only listed "
     "when the exchanging level has at least two conditions -- with a single condition it is the unlisted kind "
     "'exchange-with-a-single-condition:...', i.e. a VIOLATION), 'inherited' (the final id_star call is wrong by "
     "itself: keyed by the C07 finding it shrinks to), 'F11' (numerator right, every name Expression.conditional wrongly "
@@ -207,6 +218,115 @@ def _gen_samebase(rng: random.Random):
     return g, outs, conds
 
 
+def _sparse_graph(rng: random.Random, n, p_di=0.3, p_bi=0.12, chain=True):
+    """acyclic ADMG on n nodes along a shuffled order; `chain`: consecutive nodes of the order are joined by a directed edge
+    (a ladder A -> B -> C -> ...), so that every node has an ancestor / descendant and the graph is never edgeless"""
+    order = list(range(n))
+    rng.shuffle(order)
+    di = [[order[i], order[i + 1]] for i in range(n - 1) if chain and rng.random() < 0.8]
+    for i in range(n):
+        for j in range(i + 2, n):
+            if rng.random() < p_di:
+                di.append([order[i], order[j]])
+    bi = [[order[i], order[j]] for i in range(n) for j in range(i + 1, n) if rng.random() < p_bi]
+    return {"nodes": sorted(order), "di": di, "bi": bi}, order
+
+
+def _gen_wide(rng: random.Random, tier):
+    """structured: MANY KEYS -- 2-3 outcomes x 2-3 conditions (>= 5 keys in most cases) over up to THREE counterfactual worlds plus the
+    factual world on a ladder-like graph with 4-5 nodes (6 in the thorough tier); with probability 1/2 a 'twin': two or three base
+    variables B each observed in a world w (outcomes) and in another world / factually (conditions), i.e. >= 2 bases shared across the
+    bar; otherwise keys drawn at random from the pool of worlds, repeated bases allowed on either side"""
+    n = rng.choice([4, 4, 5, 5, 6] if tier != "quick" else [4, 4, 4, 5])
+    g, order = _sparse_graph(rng, n, p_di=0.25, p_bi=0.1)
+    star = lambda p_=0.3: "p" if rng.random() < p_ else "m"    # noqa: E731
+    nw = rng.choice([1, 2, 2, 3, 3])
+    worlds = []
+    for _ in range(nw):
+        w = tuple(sorted((x, star()) for x in rng.sample(order[:max(2, n - 1)], rng.choice([1, 1, 2]))))
+        if rng.random() < 0.3 and worlds:
+            w = tuple((x, "p" if s_ == "m" else "m") for x, s_ in worlds[0])
+        if w not in worlds:
+            worlds.append(w)
+    pool = worlds + [()]
+    if rng.random() < 0.5:
+        w = worlds[0]
+        free = [v_ for v_ in order if v_ not in {x for x, _ in w}]
+        bases = rng.sample(free, min(len(free), rng.choice([2, 2, 3])))
+        other = rng.choice([w2 for w2 in pool if w2 != w])
+        outs = [[K.mkvar(b, w), star()] for b in bases]
+        conds = [[K.mkvar(b, other if b not in {x for x, _ in other} else ()), star()] for b in bases]
+        if rng.random() < 0.5:
+            outs, conds = conds, outs
+    else:
+        def draw(k):
+            ev = {}
+            for _ in range(k):
+                w = rng.choice(pool)
+                cand = [v_ for v_ in order if v_ not in {x for x, _ in w}] or order
+                var = K.mkvar(rng.choice(cand), w)
+                ev[C.enc(var)] = [var, star()]
+            return list(ev.values())
+        outs, conds = draw(rng.choice([2, 3])), draw(rng.choice([2, 3, 3]))
+    keys = {C.enc(v_) for v_, _ in outs}
+    conds = [c for c in conds if C.enc(c[0]) not in keys]
+    rng.shuffle(outs)
+    rng.shuffle(conds)
+    return g, outs, conds
+
+
+def _gen_outbase(rng: random.Random):
+    """structured: the same base variable TWICE AMONG THE OUTCOMES (Y_w = y, Y = y / y' -- the exchange step rebuilds the outcome
+    dict and can collapse two keys) with one or two conditions on ancestors of Y, one of which rule 2 can exchange"""
+    n = rng.choice([3, 4, 4])
+    g, order = _sparse_graph(rng, n, p_di=0.3, p_bi=0.15)
+    y = order[-1] if rng.random() < 0.7 else order[-2]
+    anc = [v_ for v_ in order if v_ != y]
+    star = lambda p_=0.4: "p" if rng.random() < p_ else "m"    # noqa: E731
+    x = rng.choice(anc)
+    w1 = ((x, star()),)
+    w2 = rng.choice([(), ((x, "p" if w1[0][1] == "m" else "m"),)])
+    a = star()
+    outs = [[K.mkvar(y, w1), a], [K.mkvar(y, w2), a if rng.random() < 0.5 else ("p" if a == "m" else "m")]]
+    zs = rng.sample(anc, min(len(anc), rng.choice([1, 2])))
+    conds = [[K.mkvar(z, rng.choice([(), w1]) if z != x else ()), star()] for z in zs]
+    rng.shuffle(outs)
+    return g, outs, conds
+
+
+def _gen_unidcond(rng: random.Random):
+    """structured: a conditioning event that ID* REFUSES (line 1 of IDC* swallows `Unidentifiable`): the bow X -> Y, X <-> Y with the
+    conditions Y_x = y, X = x' (line 8 of ID* finds the conflict), outcomes elsewhere or on a third copy"""
+    n = rng.choice([3, 4])
+    order = list(range(n))
+    rng.shuffle(order)
+    x, y, r = order[0], order[1], order[2:]
+    di, bi = [[x, y]], [[x, y]]
+    for v_ in r:
+        for u in (x, y):
+            t = rng.random()
+            if t < 0.3:
+                di.append([u, v_])
+            elif t < 0.45:
+                di.append([v_, u]) if u == x else None
+        if rng.random() < 0.2:
+            bi.append([y, v_])
+    di = [e for e in di if e]
+    g = {"nodes": sorted(order), "di": di, "bi": bi}
+    s_ = "p" if rng.random() < 0.5 else "m"
+    o = "p" if s_ == "m" else "m"
+    conds = [[K.mkvar(y, ((x, s_),)), "m"], [K.mkvar(x), o]]
+    if rng.random() < 0.3:
+        conds.append([K.mkvar(r[0]), "m"])
+    outs = [[K.mkvar(rng.choice(r), rng.choice([(), ((x, s_),)])), "m" if rng.random() < 0.7 else "p"]]
+    if rng.random() < 0.3:
+        outs.append([K.mkvar(y, ((x, o),)), "m"])
+    keys = {C.enc(v_) for v_, _ in outs}
+    conds = [c for c in conds if C.enc(c[0]) not in keys]
+    rng.shuffle(conds)
+    return g, outs, conds
+
+
 def _gen_observational(rng: random.Random):
     """structured: an observational conditional query P(y | x) -- factual variables, unstarred values, disjoint names: the
     static part of the fragment of idcstar_sound_fragment (whether rule 2 applies / something is marginalised varies)"""
@@ -235,12 +355,20 @@ def cases(rng: random.Random, tier: str):
             if not ({C.enc(v_) for v_, _ in outs} & {C.enc(v_) for v_, _ in conds}):
                 out.append({"g": g, "outcomes": outs, "conditions": conds, "seed": rng.randrange(1 << 30), "gen": "samebase"})
                 continue
+        r_ = rng.random()
+        if r_ < 0.09:
+            gen, (g, outs, conds) = ("wide", _gen_wide(rng, tier)) if r_ < 0.045 else \
+                ("outbase", _gen_outbase(rng)) if r_ < 0.07 else ("unidcond", _gen_unidcond(rng))
+            if outs and conds and not ({C.enc(v_) for v_, _ in outs} & {C.enc(v_) for v_, _ in conds}) and \
+                    len({C.enc(v_) for v_, _ in outs}) == len(outs) and len({C.enc(v_) for v_, _ in conds}) == len(conds):
+                out.append({"g": g, "outcomes": outs, "conditions": conds, "seed": rng.randrange(1 << 30), "gen": gen})
+                continue
         if rng.random() < 0.07:
             g, outs, conds = _gen_observational(rng)
             out.append({"g": g, "outcomes": outs, "conditions": conds, "seed": rng.randrange(1 << 30), "gen": "observational"})
             continue
         g = K.rand_admg(rng, 2, 5 if big else 4)
-        pr = K.rand_event_pair(rng, g, max_worlds=2)
+        pr = K.rand_event_pair(rng, g, max_worlds=3 if rng.random() < 0.2 else 2)
         if pr is None:
             continue
         outs, conds = pr
@@ -358,6 +486,7 @@ def _run_real(case, strategy, record=None):
                     r = orig_r2(cf_graph, outcomes, condition, **kw)
                     record["rule2"].append({"level": len(record["levels"]) - 1, "cf": K.enc_nx_cf_graph(cf_graph),
                                             "outcomes": [E.enc_var(o) for o in outcomes],
+                                            "others": [E.enc_var(o) for o in kw.get("other_conditions", ())],
                                             "condition": E.enc_var(condition), "result": bool(r)})
                     return r
 
@@ -439,9 +568,10 @@ def _union(o, c):
 
 
 def _documented_rule2(call):
-    """The rule-2 test AS DOCUMENTED in idc_star.py, recomputed independently of the code (path-enumeration d-separation
-    of oracles/sep_paths.py): every outcome is d-separated from the condition in the counterfactual graph without the
-    edges leaving the condition, given the self-intervened nodes other than the two tested ones.  None = out of scope."""
+    """The rule-2 test AS DOCUMENTED in idc_star.py ((Y _||_ Z | X, Z - {Z}) in G_{bar X, underbar Z}), recomputed
+    independently of the code (path-enumeration d-separation of oracles/sep_paths.py): every outcome is d-separated from
+    the condition in the counterfactual graph without the edges leaving the condition, given the self-intervened nodes AND
+    THE OTHER CONDITIONS (since `fix:` 1834c39 the code passes them), the two tested nodes excepted.  None = out of scope."""
     from ..oracles import sep_paths as SP
 
     _, nodes, di, bi = call["cf"]
@@ -454,6 +584,10 @@ def _documented_rule2(call):
     g = {"nodes": list(range(len(nodes))), "di": [[idx[key(u)], idx[key(w)]] for u, w in di if idx[key(u)] != c],
          "bi": [[idx[key(u)], idx[key(w)]] for u, w in bi]}
     blocked = {i for i, n in enumerate(nodes) if any(int(a) == int(n[1]) for a, _ in n[4])}
+    for o in call.get("others", []):
+        if idx.get(key(o)) is None:
+            return None
+        blocked.add(idx[key(o)])
     try:
         return all(o != c and SP.d_separated(g, o, c, sorted(blocked - {o, c})) for o in outs)
     except SP.OracleDisagreement:
@@ -477,6 +611,10 @@ def _exchange_kind(g, before, after, seed, n_models):
     (o1, c1), (o2, c2) = before, after
     k2 = {C.enc(var) for var, _ in c2}
     gone = [[var, val] for var, val in c1 if C.enc(var) not in k2]
+    if len(gone) == 1 and len(o2) < len(o1):
+        # the dict comprehension that re-subscripts the outcomes produced a key that was already there (Y -> Y_z next to an outcome
+        # Y_z): two outcome conjuncts collapsed into one, the value of one of them is lost
+        return "exchange:outcomes-collapse"
     if len(gone) != 1 or len(o1) != len(o2):
         return "exchange:separation"
     name = int(gone[0][0][1])
@@ -484,16 +622,26 @@ def _exchange_kind(g, before, after, seed, n_models):
     def with_sub(var, star):
         subs = [(n, s_) for n, s_ in var[4] if int(n) != name] + [(name, star)]
         return K.mkvar(var[1], subs)
-    new_star = {s_ for (v1, _), (v2, _) in zip(o1, o2) for n, s_ in v2[4]
-                if int(n) == name and not any(int(n1) == name for n1, _ in v1[4])}
-    if len(new_star) == 1:
-        st = next(iter(new_star))
+    # the new subscript carries the VALUE of the exchanged condition (since `fix:` 8a76512); the outcomes of `before` and `after`
+    # are matched by base variable and old subscripts, not by position (two outcomes may share their base variable)
+    def strip(var):
+        return C.enc(K.mkvar(var[1], [(n, s_) for n, s_ in var[4] if int(n) != name]))
+    old_keys = {C.enc(v1) for v1, _ in o1}
+    gained = [C.enc(v2) not in old_keys and any(int(n) == name for n, _ in v2[4]) and
+              any(strip(v2) == C.enc(v1) for v1, _ in o1) for v2, _ in o2]
+    stars = {s_ for (v2, _), g_ in zip(o2, gained) if g_ for n, s_ in v2[4] if int(n) == name}
+    if gone[0][1] in ("m", "p"):
+        stars.add(gone[0][1])
+    for st in sorted(stars, key=lambda x: x != gone[0][1]):
         flip = "m" if st == "p" else "p"
-        o2f = [[with_sub(v2, flip), val] if any(int(n) == name for n, _ in v2[4]) and
-               not any(int(n1) == name for n1, _ in v1[4]) else [v2, val] for (v1, _), (v2, val) in zip(o1, o2)]
-        if len({C.enc(v) for v, _ in o2f}) == len(o2f) and not _ratio_differs(g, before, (o2f, c2), seed, n_models):
-            return "exchange:polarity"
-        c2s = [[with_sub(v, st), val] if int(v[1]) != name else [v, val] for v, val in c2]
+        if any(gained):
+            o2f = [[with_sub(v2, flip), val] if g_ else [v2, val] for (v2, val), g_ in zip(o2, gained)]
+            if len({C.enc(v) for v, _ in o2f}) == len(o2f) and not _ratio_differs(g, before, (o2f, c2), seed, n_models):
+                return "exchange:polarity"
+        # (a remaining condition that already carries a subscript for the exchanged variable lives in a world where that
+        # variable is set: it keeps it)
+        c2s = [[with_sub(v, st), val] if int(v[1]) != name and not any(int(n_) == name for n_, _ in v[4]) else [v, val]
+               for v, val in c2]
         if c2s != c2 and len({C.enc(v) for v, _ in c2s}) == len(c2s) and \
                 not _ratio_differs(g, before, (o2, c2s), seed, n_models):
             return "exchange:conditions"
@@ -674,6 +822,14 @@ def _judge(case, res, exc, n_models, strategy=None):
         if shared and S.check_estimand(g, jt, expr[1], case.get("seed", 0), n_models=n_models) is None:
             return msg + (" [numerator right; the final normalisation est.conditional([c.get_base() for c in conditions]) works "
                           "with base names, but an outcome and a condition are copies of the same variable]"), "conditional:shared-base"
+    if kind == "value" and not isinstance(expr, str) and expr[0] == "frac":
+        onames = {int(var[1]) for var, _ in case["outcomes"]}
+        if any(int(n_) in onames for var, _ in case["conditions"] for n_, _ in var[4]) and \
+                S.check_estimand(g, jt, expr[1], case.get("seed", 0), n_models=n_models) is None:
+            return msg + (" [numerator right; a CONDITION lives in a world that sets an OUTCOME variable (X_y = x with Y = y among the "
+                          "outcomes): the joint estimand was simplified using the outcome's value (consistency merges X_y into X given "
+                          "Y = y), so summing it over the outcome variable -- what est.conditional does -- is not P(conditions)]"), \
+                "conditional:condition-in-outcome-world"
     return msg, kind
 
 
@@ -870,12 +1026,14 @@ def _same_wrong_answer_as_model(case, r):
 
 
 COARSE = ("F11", "normalisation:subscript", "inherited", "reassociation", "exchange:polarity", "exchange:conditions", "exchange:separation",
-          "conditional:shared-base")
+          "exchange:outcomes-collapse",
+          "conditional:shared-base", "conditional:condition-in-outcome-world")
 
 
 def _coarse_key(case, r):
     """finding key of the failures that are explained by an identified broken step / another listed defect"""
-    if r["kind"] in ("F11", "normalisation:subscript", "reassociation", "conditional:shared-base") or \
+    if r["kind"] in ("F11", "normalisation:subscript", "reassociation", "conditional:shared-base",
+                     "conditional:condition-in-outcome-world") or \
             r["kind"].startswith("exchange:"):
         return json.dumps([r["kind"]])
     if r["kind"] == "inherited":
@@ -1035,12 +1193,12 @@ MANIFEST = {
              "effectiveness, before doing anything else; the model is defined for every fuel, an answer reached with some fuel "
              "is not changed by more fuel; every leaf of a returned estimand is a single-world interventional term (C06 part); "
              "Zero from line 3 (inconsistent joint event) is sound in every compatible functional SCM (by C18's cg_prob); the final division is fully modelled; the line-4 recursion terminates within |conditions| + 1 levels when no name is both an outcome and a condition (idcstar_own_recursion_terminates) and, without an explicit bound, on every input without self-intervened keys even when outcomes and conditions are copies of the same variables (idcstar_terminates_shared_names); after `fix:` b76144c the answer does not depend on the order in which Python iterates the set of re-associated keys (idcstar_reassociation_order_independent for every relabelled event with pairwise different event keys; idcstar_order_independent for the whole recursion on inputs without self-intervened keys: any permutation before the sort gives the same answer); the returned value EQUALS P(outcomes, conditions)/P(conditions) in every compatible functional SCM on the observational no-exchange fragment (idcstar_sound_fragment, via idstar_sound_fragment, the repaired conditional and marginalisation) and on the exchange fragment (idcstar_sound_fragment_exchange: one factual condition to which rule 2 applies, all or no outcomes descending from it; rule 2 of the do-calculus proved for functional SCMs on the noise space, no positivity assumption). Outside these fragments soundness of the returned value and of Zero from inside ID* has NO theorem (it inherits F10 from "
-             "ID* and adds the bound-range part of F11 and an exchange step that ignores the other conditions); the check decides it by correspondence with the real "
+             "ID* and adds the bound-range part of F11 and an exchange step that leaves the remaining conditions un-subscripted); since `fix:` 1834c39 the exchange itself is licensed by the graphical premise of rule 2 given the other conditions (idcstar_exchange_licensed: m-separation in the sense of the C04 specification; idcstar_sound_fragment_exchange_multi_partial on the widened fragment InFragmentXs); the check decides it by correspondence with the real "
              "code plus exact evaluation of P(outcomes, conditions)/P(conditions) on sampled functional SCMs; every wrong answer is "
              "attributed to the first step of IDC*'s chain of claims that exact evaluation shows to be broken (reassociation, "
-             "exchange:conditions, exchange:separation, inherited from ID*, F11) and those steps are listed as open findings -- a wrong answer is "
-             "excused by a listed finding only if the model returns the same wrong answer on that input; four "
-             "small defects were fixed in idc_star.py (0cb6c69, 8a76512, 9f8a537, b76144c: the answer no longer depends on PYTHONHASHSEED, checked in fresh interpreters under several hash seeds) and the subscript part of F11 in dsl.py (a54a0f5)."),
+             "exchange:conditions, inherited from ID*, F11; exchange:separation is repaired) and those steps are listed as open findings -- a wrong answer is "
+             "excused by a listed finding only if the model returns the same wrong answer on that input; five "
+             "small defects were fixed in idc_star.py (0cb6c69, 8a76512, 9f8a537, 1834c39: the rule-2 test conditions on the other conditions, b76144c: the answer no longer depends on PYTHONHASHSEED, checked in fresh interpreters under several hash seeds) and the subscript part of F11 in dsl.py (a54a0f5)."),
     "note": ("Trusted: Lean kernel + standard axioms; hand-written models (ID*, counterfactual graph, d-separation of the sep "
              "family, Expression.conditional) tied to the code by differential testing under all set-iteration orders; the "
              "reading convention of estimands; sampled models (8 per case, P(conditions) > 0)."),
